@@ -247,6 +247,31 @@ theorem digChar_facts : ∀ d, d < 10 →
     digitChar d ≠ '-' ∧ digitChar d ≠ '+' ∧ digitChar d ≠ '.' ∧ digitChar d ≠ '!' ∧ digitChar d ≠ '_' := by
   decide
 
+theorem isNeg_of_ne {c : Char} (cs : List Char) (h : c ≠ '-') : isNeg (c :: cs) = false := by
+  unfold isNeg
+  split
+  · rename_i hm; simp only [List.cons.injEq] at hm; exact absurd hm.1 h
+  · rfl
+
+theorem stripSign_of_ne {c : Char} (cs : List Char) (h₁ : c ≠ '-') (h₂ : c ≠ '+') :
+    stripSign (c :: cs) = c :: cs := by
+  unfold stripSign
+  split
+  · rename_i hm; simp only [List.cons.injEq] at hm; exact absurd hm.1 h₁
+  · rename_i hm; simp only [List.cons.injEq] at hm; exact absurd hm.1 h₂
+  · rfl
+
+/-- `Atoi` on a text that does not start with a sign. -/
+theorem atoi_unsigned {c : Char} (cs : List Char) (h₁ : c ≠ '-') (h₂ : c ≠ '+') :
+    atoi (c :: cs) = if (c :: cs).all isDigit then
+      (if natOfDigits (c :: cs) < 9223372036854775808 then some (natOfDigits (c :: cs) : Int) else none)
+      else none := by
+  unfold atoi
+  rw [stripSign_of_ne cs h₁ h₂, isNeg_of_ne cs h₁]
+  by_cases h : (c :: cs).all isDigit = true
+  · simp [h]
+  · simp [h]
+
 /-- `Atoi` of the decimal rendering of a number below 2^63 gives the number back. -/
 theorem atoi_natDigits (n : Nat) (h : n < 9223372036854775808) : atoi (natDigits n) = some (n : Int) := by
   have hd := natDigits_isDig n
@@ -260,12 +285,8 @@ theorem atoi_natDigits (n : Nat) (h : n < 9223372036854775808) : atoi (natDigits
   have hall := hd.all_isDigit
   have hval := natOfDigits_natDigits n
   rw [hcs] at hall hval ⊢
-  unfold atoi
-  split <;> rename_i hm
-  · -- the "neg" match: head is not '-'
-    simp only [List.cons.injEq] at hm
-    all_goals simp_all
-  · simp_all
+  rw [atoi_unsigned cs f₁ f₂, hall, hval]
+  simp [h]
 
 theorem intStr_nonneg {x : Int} (h : 0 ≤ x) : intStr x = natDigits x.toNat := by
   unfold intStr
